@@ -9,8 +9,6 @@ namespace Rx
 
 /-! ### replacement-string expansion -/
 
-def isDigit (c : Nat) : Bool := decide (48 ≤ c) && decide (c ≤ 57)
-
 /-- longest run of further digits such that the number stays `≤ maxCapture` -/
 def takeDigits (maxCapture : Nat) : (n : Nat) → List Nat → Nat × List Nat
   | n, [] => (n, [])
